@@ -271,6 +271,8 @@ def evaluate(c) -> R:
         tail = ""
     ok_head = new_n.startswith(coreP)
     ok_tail = new_n.endswith(tail)
+    # When nothing follows the header, the header's own last line terminator is the end of the file; whether the tool writes it is
+    # "whitespace directly adjacent to the header" (the pinned suite expects it for .license files) and is not judged.
     if not ok_head:
         r.violation(f"before-part-altered|{sig}", f"{label}: text before the header must stay {coreP!r}; new file {new_n!r}")
     if not ok_tail:
